@@ -462,7 +462,14 @@ pub fn corrupt_bigram(rng: &mut Rng, name: &str, data: &[u8]) -> (Vec<u8>, &'sta
             }
         }
     } else {
-        match rng.below(7) {
+        match rng.below(8) {
+            7 => {
+                // a feature field around the 4096-byte CSV buffer size
+                let n = lines.len() + 1;
+                let len = *rng.pick(&[4095usize, 4096, 4097, 9000]);
+                lines.push(format!("{n}\tzz,{}", "f".repeat(len)));
+                "feature field around the 4096-byte buffer size"
+            }
             0 if lines.len() >= 2 => {
                 let i = rng.usize(lines.len());
                 let j = rng.usize(lines.len());
